@@ -99,7 +99,7 @@ def check_c06(tier, seed):
                   "seeded random call sequences with sizes straddling 64/1024/4096/sector/buffer capacity and i64/u64 extreme seeks", H_ASSUME)
 
 
-def fault_histories(workloads, cls, tier, rng, label):
+def fault_histories(workloads, cls, tier, rng, label, kind=None):
     hs = []
     for wi, w in enumerate(workloads):
         n, bounds = count_calls(w, cls)
@@ -108,7 +108,7 @@ def fault_histories(workloads, cls, tier, rng, label):
         if len(ks) > limit:
             ks = fault_positions(n, bounds, limit)
         for k in ks:
-            hs.append(dict(w, id=f"{label}{wi}_k{k}", faults={"class": cls, "at": [k]}))
+            hs.append(dict(w, id=f"{label}{wi}_k{k}", faults=dict({"class": cls, "at": [k]}, **({"kind": kind} if kind else {}))))
         if tier == "thorough":
             for _ in range(min(2000, n * 3)):
                 k1, k2 = sorted(rng.sample(range(1, n + 1), 2))
@@ -125,6 +125,11 @@ def check_c12(tier, seed):
         wl += [hgens.ro_workload(3, None), hgens.ro_workload(4, 1024), hgens.ro_workload(3, 2560)]
     hs = fault_histories(wl, "r", tier, rng, "ro")
     run_batch(out, "faults", "A", hs, spec="Trace_Handle", driver="hdrive")
+    # the same positions failing with ErrorKind::Interrupted, which std's read_exact loops retry silently:
+    # a retried transfer must not have moved anything
+    hs = fault_histories(wl[:2] if tier == "quick" else wl, "r", "quick" if tier == "quick" else "thorough", rng, "roi", kind="interrupted")
+    hs = [h for h in hs if len(h["faults"]["at"]) == 1]
+    run_batch(out, "interrupted", "A", hs, spec="Trace_Handle", driver="hdrive")
     return finish(out, "fault_enumeration",
                   "k-th backend read/seek call of a read-only workload fails (quick: every k up to 420 calls, beyond that the first and last backend calls of every API call plus an even sample; thorough: every k and sampled pairs); each call must return Err or exactly the fault-free result; "
                   "after an error the handle is asked for its position and read again; distinct = distinct (workload, fault positions)",
